@@ -51,13 +51,25 @@ def main(argv=None):
         try:
             ctx = run_property(repo, p, args.tier, only)
             if args.tier == 'thorough' and not only:
+                import subprocess
                 try:
                     from sa import selftest
                     selftest.report_for(ctx)
                 except Exception as ex:   # the self-test never masks or creates a verdict
                     ctx.info.append('selftest failed to run: %s: %s' % (type(ex).__name__, ex))
+                # mechanically generated behaviour-preserving variants of every analysed function must stay silent
+                try:
+                    r = subprocess.run([sys.executable, os.path.join(os.path.dirname(os.path.abspath(__file__)), '..', 'tools', 'equiv_fuzz.py'),
+                                        '--props', p, '--repo', args.repo], capture_output=True, text=True)
+                    lines = r.stdout.strip().splitlines() or ['?']
+                    ctx.info.append('equivalence sweep %s: %s' % (p, lines[-1]))
+                    for ln in lines[:-1]:
+                        if ln.startswith(('ALARM', 'CRASH')):
+                            ctx.info.append('EQUIV-' + ln[:300])
+                    print('equivalence sweep %s: %s' % (p, lines[-1]))
+                except Exception as ex:
+                    ctx.info.append('equivalence sweep failed to run: %s: %s' % (type(ex).__name__, ex))
                 # the normaliser (inlining, closed forms) is trusted by every rule: its differential tests run with the thorough tier
-                import subprocess
                 for t in ('test_inline.py', 'test_canon.py'):
                     r = subprocess.run([sys.executable, os.path.join(os.path.dirname(os.path.abspath(__file__)), '..', 'tools', t)],
                                        capture_output=True, text=True)
